@@ -36,6 +36,8 @@ pub struct Faulty {
     gate: tokio::sync::Semaphore,
     /// while set, every storage mutation fails without writing (the disk is full)
     fail_all: std::sync::atomic::AtomicBool,
+    /// while set, document reads (`get`, `multi_get`) fail
+    fail_reads: std::sync::atomic::AtomicBool,
 }
 
 impl Default for Faulty {
@@ -46,6 +48,7 @@ impl Default for Faulty {
             calls: Mutex::new(0),
             gate: tokio::sync::Semaphore::new(0),
             fail_all: std::sync::atomic::AtomicBool::new(false),
+            fail_reads: std::sync::atomic::AtomicBool::new(false),
         }
     }
 }
@@ -61,6 +64,10 @@ impl Faulty {
     /// While `on`, every storage mutation fails without writing anything.
     pub fn set_fail_all(&self, on: bool) {
         self.fail_all.store(on, std::sync::atomic::Ordering::SeqCst);
+    }
+    /// While `on`, `get` and `multi_get` fail.
+    pub fn set_fail_reads(&self, on: bool) {
+        self.fail_reads.store(on, std::sync::atomic::Ordering::SeqCst);
     }
     fn take_plan(&self) -> Plan {
         *self.calls.lock() += 1;
@@ -213,6 +220,9 @@ impl Storage for Faulty {
     }
 
     async fn get(&self, keyspace: &str, doc_id: Key) -> Result<Option<Document>, Self::Error> {
+        if self.fail_reads.load(std::sync::atomic::Ordering::SeqCst) {
+            return Err(injected());
+        }
         self.inner.get(keyspace, doc_id).await
     }
 
@@ -221,6 +231,9 @@ impl Storage for Faulty {
         keyspace: &str,
         doc_ids: impl Iterator<Item = Key> + Send,
     ) -> Result<Self::DocsIter, Self::Error> {
+        if self.fail_reads.load(std::sync::atomic::Ordering::SeqCst) {
+            return Err(injected());
+        }
         self.inner.multi_get(keyspace, doc_ids).await
     }
 }
